@@ -43,7 +43,7 @@ type tierCfg struct {
 
 var tiers = map[string]tierCfg{
 	"quick":    {MaxPaths: 4000, MaxSteps: 3_000_000, BranchTO: 600 * time.Millisecond, AssertTO: 10 * time.Second, ExactTO: 3 * time.Second, MaxPower: 8, TaskTime: 8 * time.Minute, Total: 25 * time.Minute},
-	"thorough": {MaxPaths: 60000, MaxSteps: 10_000_000, BranchTO: 2 * time.Second, AssertTO: 60 * time.Second, ExactTO: 20 * time.Second, MaxPower: 64, TaskTime: 40 * time.Minute, Total: 60 * time.Minute},
+	"thorough": {MaxPaths: 60000, MaxSteps: 10_000_000, BranchTO: 2 * time.Second, AssertTO: 60 * time.Second, ExactTO: 20 * time.Second, MaxPower: 64, TaskTime: 15 * time.Minute, Total: 20 * time.Minute},
 }
 
 type taskResult struct {
